@@ -344,3 +344,27 @@ func zzH_C01_files() {
 	verifAssert(verifFSOpenHandles() == 0, "files left open after the transfer")
 	verifReach("files-transferred")
 }
+
+
+// a chunk size that a cooperative sender can produce is never refused by the receiver's bound: the protocol-1 loop
+// reads up to max(1024, bufsize) bytes and escaping can double them; the pipeline cuts already escaped data into
+// chunks of at most max(10240, bufsize)
+func zzH_C01_legitSizes() {
+	t := newTransfer(nil, nil, false, nil)
+	mb := int64(verifNondetInt())
+	verifAssume(mb >= 1024) // -B accepts 1K..1G
+	verifAssume(mb <= 1<<30)
+	t.transferConfig.MaxBufSize = mb
+	n := int64(verifNondetInt())
+	verifAssume(n >= 0)
+	p1 := mb // protocol 1: buffer grows from 1024 up to the negotiated maximum
+	pl := mb // pipeline: buffer starts at 10240 and grows up to the negotiated maximum
+	if pl < 10240 {
+		pl = 10240
+	}
+	legit := n <= 2*p1 || n <= pl
+	if legit {
+		verifAssert(t.checkDataSize(n) == nil, "a chunk size a cooperative sender can produce was refused")
+		verifReach("legit-accepted")
+	}
+}
